@@ -458,3 +458,25 @@ for _pid, _txt in _SURFACE.items():
 # whose totals are compared with what the bodies executed also decide C17's "cover all iterations"
 PROPS["C18"]["stages"] = PROPS["C18"]["stages"] + [st for st in PROPS["C05"]["stages"] if st["name"] == "c05locks"]
 PROPS["C17"]["stages"] = PROPS["C17"]["stages"] + [st for st in PROPS["C01"]["stages"] if st["name"] in ("c01runs", "c02runs")]
+
+# what the thirteenth seed series added (the same direction as the twelfth)
+_SURFACE2 = {
+    "C01": "config-file runs interrupted while a burst of hundreds of thousands is being reported dropped; whole runs interrupted mid-run",
+    "C02": "rapid pool histories under continuous progress snapshots",
+    "C03": "f1 run file from the command line with max-iterations in the file next to a max-failures absent, below, above it",
+    "C04": "stage c04gateway: a push gateway that takes 1.3 s to answer a periodic push - the workers go on starting iterations",
+    "C05": "stage c05cli: no goroutine of f1 after ExecuteWithArgs, every way an execution can end",
+    "C06": "whole runs with failure tolerances set (a failed setup or setup cleanup fails the run all the same)",
+    "C07": "stage c07logfile: child processes whose log file cannot be created, iterations failing through the logging APIs",
+    "C08": "CLI runs with --memprofile / --cpuprofile",
+    "C09": "intervals that are no whole number of milliseconds",
+    "C12": "ramps ending inside a cycle with distribution regular / random",
+    "C13": "gaussian through CalculateGaussianRate in the triggers differential",
+    "C15": "stage c15big: config files of 9-20 thousand stages read through run file",
+    "C16": "an interrupted run with a 5.6 s drain in front of a push gateway",
+    "C17": "whole runs of C01 (interrupted ones included): totals cover every iteration the bodies executed",
+    "C18": "the lock stage of C05: the reporter's and Run.Do's calls on the shared Result never wedge each other",
+    "C19": "results carrying two errors",
+}
+for _pid, _txt in _SURFACE2.items():
+    PROPS[_pid]["rule"] = PROPS[_pid]["rule"] + "; " + _txt
